@@ -1101,7 +1101,11 @@ func (e *env) exchangeP(o Op, subj presented, actor *presented, h int) {
 		if role == "actor" {
 			dead = *actor
 		}
-		if role != "" && dead.tok != nil && dead.tok.kind != "refresh" && e.c.TELax {
+		sealedPair := false // unseals to "x:y": all the library itself checks of an opaque access token in an exchange
+		if pt, ok := unseal(dead.str, e.key); ok && len(strings.Split(pt, ":")) == 2 {
+			sealedPair = true
+		}
+		if role != "" && e.c.TELax && ((dead.tok != nil && dead.tok.kind != "refresh") || sealedPair) {
 			// The library never asks storage about access tokens used as exchange input (it only unseals / verifies the
 			// JWT); liveness is left to ValidateTokenExchangeRequest, and this storage variant skips it: not attributable
 			// to the library, counted only.
@@ -1277,9 +1281,7 @@ func (e *env) sweep() {
 				}
 			}
 		}
-		if t.kind != "opaque" { // opaque exchange inputs panic (recorded finding): no need to repeat that for every token
-			e.exchangeP(Op{Kind: "exchange", Caller: "ca", Cred: "right"}, p, nil, h)
-		}
+		e.exchangeP(Op{Kind: "exchange", Caller: "ca", Cred: "right"}, p, nil, h)
 		e.checkState(Op{Kind: "sweep"})
 	}
 	e.res.Label("swept")
